@@ -735,25 +735,18 @@ def c07_rates_stage(prop, tier, seed, bins, tag):
 
 
 def td_long_search_stage(prop, tier, seed, bins, tag):
-    """failing-input search for the size sentence of C04 (only after a break): very long unit-weight streams for every
-    scale function (the centroid count of K2/K3 depends on ln n), oracle only"""
+    """the size sentence of C04 on very long unit-weight streams (3e5 values, every scale function: the centroid count of
+    K2/K3 depends on ln n), oracle only (no model replay: the compact `insseq` op is not part of the model's alphabet)"""
     sg = Stage('long-streams:td')
-    if tier != 'search':
-        return [sg]
     t0 = time.time()
     rng = random.Random(seed)
     cases = []
     for K in ('K0', 'K1', 'K2', 'K3'):
         for delta in (20.0, 100.0):
             L = ['new 0 %s %d 1000' % (K, gen.f64bits(delta))]
-            order = rng.choice(['sorted', 'random'])
-            nv = 300000
-            for j in range(nv):
-                x = float(j) if order == 'sorted' else rng.random()
-                L.append('ins 0 %d %d' % (gen.f64bits(x), gen.f64bits(1.0)))
-                if j in (1000, 30000, 100000):
-                    L.append('audit 0')
-            L += ['audit 0', 'ncent 0']
+            kind, sd = rng.choice([0, 1]), rng.randrange(1 << 32)
+            for cnt in (1000, 29000, 70000, 200000):
+                L += ['insseq 0 %d %d %d' % (cnt, kind, sd), 'audit 0', 'ncent 0']
             cases.append(gen.case('long_%s_%g' % (K, delta), 'td', {'freshpass': 0, 'iso': 0, 'rank': 0}, L))
     path = os.path.join(build.BUILD, '%s_tdlong.cases' % tag)
     gen.write_cases(path, cases)
@@ -767,6 +760,6 @@ def td_long_search_stage(prop, tier, seed, bins, tag):
     for tc in tcs:
         for p_, msg in tc.x:
             c = src[tc.id]
-            sg.failures.append((p_, msg, [c[0], c[1], '# %d unit-weight inserts (%s)' % (300000, tc.id), 'audit 0', 'END']))
+            sg.failures.append((p_, msg, c))
     sg.wall = time.time() - t0
     return [sg]
